@@ -123,6 +123,37 @@ def _energy(ctx, tmp):
               [(v.pressure, v.volume, v.energy, [(q.coord, q.modes) for q in v.q_points]) for v in back.volumes],
               [(w.coord, w.weight) for w in back.weights])
         judge("writer", own["counts"], own["volumes"], own["weights"])        # the file itself, read by the oracle's parser
+        if path.endswith("-reused"):
+            # the path just read is overwritten straight away (same second) by a data set of the same shape, hence - the writer being
+            # fixed-width - usually a file of the same size; a quarter of the time the old modification time is kept as well (cp -p, rsync -t)
+            st = os.stat(path)
+            freqs = numpy.round(freqs * 1.01, 6)
+            E = numpy.round(E - 0.125, 6)
+            data = QHAInputData(nv, nq, np_, nm, na,
+                                [QPointWeight(tuple(wcoords[j]), float(wts[j])) for j in range(nq)],
+                                [VolumeData(float(P[a]), float(V[a]), float(E[a]),
+                                            [QPointData(tuple(coords[j]), [float(x) for x in freqs[a, j]]) for j in range(nq)]) for a in range(nv)])
+            try:
+                if i % 3 == 0:
+                    write_energy(path, data)
+                else:
+                    write_energy(path, data, comment=comment)
+                if i % 4 == 1:
+                    os.utime(path, ns=(st.st_atime_ns, st.st_mtime_ns))
+                same_size = os.stat(path).st_size == st.st_size
+                back = read_energy(path)
+                own = F.read_input01(path)
+            except Exception as exc:
+                if classify_exception(exc) == "code":
+                    ctx.violation(f"energy-roundtrip-raises:{type(exc).__name__}:{exc_site(exc)}:rewritten", exc_text(exc), case_id)
+                else:
+                    ctx.harness_error("C17.energy-rewrite", exc)
+                continue
+            ctx.evaluation("phonon-write-read|overwritten-with-same-shape" + ("|same-size" if same_size else "") + ("|mtime-kept" if i % 4 == 1 else ""), (nv, nq, np_, i, "rw"))
+            judge("reader:after-overwrite", (back.nv, back.nq, back.np, back.nm, back.na),
+                  [(v.pressure, v.volume, v.energy, [(q.coord, q.modes) for q in v.q_points]) for v in back.volumes],
+                  [(w.coord, w.weight) for w in back.weights])
+            judge("writer:after-overwrite", own["counts"], own["volumes"], own["weights"])
     # files written by the oracle's writer (other layouts) through the real reader
     for i in range(ctx.pick(60, 30000)):
         case_id = f"energy-own{i}"
